@@ -36,6 +36,9 @@ type eNode struct {
 	dh   *digest.BlockImportHandler
 	has  map[common.Hash]bool
 	fin  *eBlock
+	// refused: a write of a finalise step was refused earlier in this run (used only to name the class
+	// of a later wrong configuration, never to switch a check off)
+	refused bool
 }
 
 func babeConsensus(v any) types.ConsensusDigest {
@@ -171,8 +174,25 @@ func runEpoch(k *kernel.K) {
 				k.Violate("C17", "finalise", "valid-finalisation-refused", "%v", err)
 				k.Stop()
 			}
+			if k.Bool(1, 6, "finalise-step-write-refused") {
+				// the disk refuses one write of the step that moves the finalised announcements to their
+				// final place (I/O error, disk full). The step reports the error, the node lives on and the
+				// step is never repeated for this block: what the block's descendants look up must not change
+				skip := k.Choose(4, "refused-write-index")
+				n.disk.OnWrite = func(rec *simdisk.Record) (error, bool) {
+					if skip > 0 {
+						skip--
+						return nil, false
+					}
+					n.disk.OnWrite = nil
+					n.refused = true
+					k.Fault("write-error")
+					return simdisk.ErrInjectedWrite, false
+				}
+			}
 			e1 := n.es.FinalizeBABENextEpochData(t.rb.Header)
 			e2 := n.es.FinalizeBABENextConfigData(t.rb.Header)
+			n.disk.OnWrite = nil
 			n.fin = t
 			for _, b := range pool {
 				if n.has[b.rb.Hash] && !n.descends(t, b) && !n.descends(b, t) {
@@ -308,6 +328,11 @@ func (n *eNode) lookups(pool []*eBlock) {
 			k.Violate("C26", "epoch-data", "epoch-data-from-another-fork", "block #%d %s (epoch %d): its ancestry announces nothing for epoch %d but the lookup returned randomness %x", b.rb.Number, cu.Short(b.rb.Hash), b.epoch, e, got.Randomness[:2])
 		case want != nil && err == nil && got.Randomness != want.Randomness:
 			k.Violate("C26", "epoch-data", "epoch-data-from-another-fork", "block #%d %s: epoch %d data has randomness %x, its own ancestry announced %x", b.rb.Number, cu.Short(b.rb.Hash), e, got.Randomness[:2], want.Randomness[:2])
+		case want != nil && err != nil && e == n.fin.epoch+1 && n.fin.rb.Number > 0 && expectedData(n.fin, e) != nil:
+			// the data of the epoch after the finalised block's, announced on the finalised chain: the
+			// finalise step either moved it to its final place or, if that write failed, left the
+			// announcement where it was - it is what every coming block is verified with
+			k.Violate("C26", "epoch-data", "next-epoch-data-lost-at-finalisation", "block #%d %s: data of epoch %d (the epoch after the finalised block #%d's) was announced on the finalised chain but the lookup fails: %v", b.rb.Number, cu.Short(b.rb.Hash), e, n.fin.rb.Number, err)
 		case want != nil && err != nil:
 			k.Probe("announced-epoch-data-lookup-failed")
 			k.Event("lookup-failed", "epoch %d announced on the ancestry but: %v", e, err)
@@ -325,7 +350,18 @@ func (n *eNode) lookups(pool []*eBlock) {
 		}
 		if err == nil && cfg != nil {
 			if ok && (cfg.C1 != wc.C1 || cfg.C2 != wc.C2) {
-				k.Violate("C26", "config-data", "config-data-from-another-fork", "block #%d %s: config for epoch %d is c=%d/%d, the latest configuration announced on its own ancestry is c=%d/%d", b.rb.Number, cu.Short(b.rb.Hash), e, cfg.C1, cfg.C2, wc.C1, wc.C2)
+				class := "config-data-from-another-fork"
+				if n.refused {
+					// an older configuration of the block's own chain (or the genesis one) instead of the latest
+					stale := cfg.C1 == babeCfg.C1 && cfg.C2 == babeCfg.C2
+					for x := b; x != nil && x.rb.Number > 0 && !stale; x = x.parent {
+						stale = x.annCfg != nil && x.annCfg.C1 == cfg.C1 && x.annCfg.C2 == cfg.C2
+					}
+					if stale {
+						class = "configuration-lost-after-a-refused-write-of-the-finalise-step"
+					}
+				}
+				k.Violate("C26", "config-data", class, "block #%d %s: config for epoch %d is c=%d/%d, the latest configuration announced on its own ancestry is c=%d/%d", b.rb.Number, cu.Short(b.rb.Hash), e, cfg.C1, cfg.C2, wc.C1, wc.C2)
 			}
 			if !ok && (cfg.C1 != babeCfg.C1 || cfg.C2 != babeCfg.C2) {
 				k.Violate("C26", "config-data", "config-data-from-another-fork", "block #%d %s: config for epoch %d is c=%d/%d although its ancestry announces no configuration (genesis is c=%d/%d)", b.rb.Number, cu.Short(b.rb.Hash), e, cfg.C1, cfg.C2, babeCfg.C1, babeCfg.C2)
